@@ -647,6 +647,9 @@ def history_one(ctx, sf, h, reqs, pend):
         for c in cmds:
             if c["k"] == "use":
                 c["e"] = canon_tree(sf, c["e"], h["n"], list(h["free"]))
+        # a gate whose stored first parameter is the number 0 is the identity and is not sent to the backend
+        cmds[:] = [c for c in cmds if not (c["k"] == "use" and not px.atoms(c["e"], "m") and not px.atoms(c["e"], "f")
+                                           and px.fold(c["e"]) == 0)]
     rp = dict(kind="history", case=h)
     ref_tr, ref_err = history_reference(sf, h)
     conditioned = all(px.well_conditioned(c["e"], h["free"], {m: 1.0 for m in range(h["n"])}, 1e4)
